@@ -87,6 +87,23 @@ pub struct WithBodyScalar {
 }
 
 #[derive(Form, Debug, Clone, PartialEq)]
+pub struct WithBodyI64 {
+    #[form(header_body)]
+    pub hb: String,
+    #[form(body)]
+    pub body: i64,
+}
+
+#[derive(Form, Debug, Clone, PartialEq)]
+#[form(tag = "num")]
+pub struct WithBodyNum<T> {
+    #[form(attr)]
+    pub unit: Option<String>,
+    #[form(body)]
+    pub body: T,
+}
+
+#[derive(Form, Debug, Clone, PartialEq)]
 pub struct Skipped {
     pub a: i32,
     #[form(skip)]
@@ -166,6 +183,9 @@ pub enum Typed {
     WithHeaderBody(String, u32, i64),
     WithBody(u64, Vec<String>),
     WithBodyScalar(i32, String),
+    WithBodyI64(String, i64),
+    /// kind selector, optional attribute, numeric payload (i32 / u32 / u64 / f64 bits / bool / bigint / blob)
+    WithBodyNum(u8, Option<String>, u64),
     Skipped(i32, String),
     GenericI32(i32, i32),
     GenericStr(String, String),
@@ -301,6 +321,38 @@ impl Typed {
                     body: body.clone(),
                 },
             ),
+            Typed::WithBodyI64(hb, body) => vis.visit(
+                "WithBodyI64",
+                &WithBodyI64 {
+                    hb: hb.clone(),
+                    body: *body,
+                },
+            ),
+            Typed::WithBodyNum(k, unit, n) => {
+                let unit = unit.clone();
+                match k % 8 {
+                    0 => vis.visit("WithBodyNum<i32>", &WithBodyNum { unit, body: *n as i32 }),
+                    1 => vis.visit("WithBodyNum<u32>", &WithBodyNum { unit, body: *n as u32 }),
+                    2 => vis.visit("WithBodyNum<u64>", &WithBodyNum { unit, body: *n }),
+                    3 => vis.visit("WithBodyNum<f64>", &WithBodyNum { unit, body: fin(*n) }),
+                    4 => vis.visit("WithBodyNum<bool>", &WithBodyNum { unit, body: *n & 1 == 1 }),
+                    5 => vis.visit(
+                        "WithBodyNum<BigInt>",
+                        &WithBodyNum {
+                            unit,
+                            body: -(BigInt::from(*n) << 40usize),
+                        },
+                    ),
+                    6 => vis.visit("WithBodyNum<i64>", &WithBodyNum { unit, body: *n as i64 }),
+                    _ => vis.visit(
+                        "WithBodyNum<Blob>",
+                        &WithBodyNum {
+                            unit,
+                            body: Blob::from_vec(n.to_le_bytes()[..(*n % 9) as usize].to_vec()),
+                        },
+                    ),
+                }
+            }
             Typed::Skipped(a, t) => vis.visit(
                 "Skipped",
                 &Skipped {
@@ -439,6 +491,8 @@ pub fn arb_typed() -> BoxedStrategy<Typed> {
         (t(), a_u32(), a_i64()).prop_map(|(a, b, c)| Typed::WithHeaderBody(a, b, c)),
         (a_u64(), a_strs()).prop_map(|(a, b)| Typed::WithBody(a, b)),
         (a_i32(), t()).prop_map(|(a, b)| Typed::WithBodyScalar(a, b)),
+        (t(), a_i64()).prop_map(|(a, b)| Typed::WithBodyI64(a, b)),
+        (any::<u8>(), proptest::option::of(t()), prop_oneof![any::<u64>(), a_f64(), 0u64..4]).prop_map(|(k, u, n)| Typed::WithBodyNum(k, u, n)),
     ];
     let derived2 = prop_oneof![
         (a_i32(), t()).prop_map(|(a, b)| Typed::Skipped(a, b)),
